@@ -76,6 +76,7 @@ func runCase(t *testing.T, c *Case, src, sched *choice.Source, out *wproto.Out, 
 	if st.Sample != nil && id%257 < len(kinds)*2 {
 		out.Sample(st.Sample, 12)
 	}
+	out.Remember(c)
 	out.Tick(512)
 }
 
